@@ -155,7 +155,7 @@ S3b:    \* ... or STARTED ?
   if rep # "STARTED" then ok := FALSE; goto C_ret; end if;
 S5:
   staleStart := staleStart \/ PostRun(pc["w"]) \/ (InRunLoop(pc["w"]) /\ rs = "STOPPING");
-  rs := "STARTING"; wrote := TRUE; Acc("c", "W", "rs", "STARTING");
+  rs := "STARTING"; wrote := TRUE; afterStop := -1; Acc("c", "W", "rs", "STARTING");
 S6a:
   Acc("c", "R", "rep", rep);
   if rep # "INITIALIZED" then goto S8; end if;
@@ -565,10 +565,11 @@ S5 == /\ pc["c"] = "S5"
       /\ staleStart' = (staleStart \/ PostRun(pc["w"]) \/ (InRunLoop(pc["w"]) /\ rs = "STOPPING"))
       /\ rs' = "STARTING"
       /\ wrote' = TRUE
+      /\ afterStop' = -1
       /\ last' = [t |-> "c", k |-> "W", v |-> "rs", x |-> "STARTING"]
       /\ pc' = [pc EXCEPT !["c"] = "S6a"]
       /\ UNCHANGED << rep, runflag, fin, flag, next, res, startsOK, segments, 
-                      lateStop, afterStop, ctimedout, wtimedout, i, ok >>
+                      lateStop, ctimedout, wtimedout, i, ok >>
 
 S6a == /\ pc["c"] = "S6a"
        /\ last' = [t |-> "c", k |-> "R", v |-> "rep", x |-> rep]
